@@ -156,3 +156,176 @@ pub fn zone_commit_bump(
     };
     Ok((new, diff.map(|d| (d.start_serial.into_int(), d.end_serial.into_int()))))
 }
+
+//------------ XFR middleware: the IXFR "client is up to date" decision --------
+
+use domain::base::{Message, MessageBuilder};
+use domain::net::server::message::{
+    NonUdpTransportContext, Request, TransportSpecificContext,
+};
+use domain::net::server::middleware::xfr::{
+    XfrData, XfrDataProvider, XfrDataProviderError, XfrMiddlewareSvc,
+};
+use domain::net::server::service::{
+    CallResult, Service, ServiceError, ServiceFeedback, ServiceResult,
+};
+use domain::zonetree::{InMemoryZoneDiff, Zone};
+use futures_util::stream::Once;
+use futures_util::StreamExt;
+use std::future::{ready, Future, Ready};
+use std::ops::ControlFlow;
+use std::pin::Pin;
+use std::sync::Arc;
+use tokio::sync::Semaphore;
+
+#[derive(Clone)]
+struct NoNextSvc;
+impl Service<Vec<u8>, ()> for NoNextSvc {
+    type Target = Vec<u8>;
+    type Stream = Once<Ready<ServiceResult<Self::Target>>>;
+    type Future = Ready<Self::Stream>;
+    fn call(&self, _request: Request<Vec<u8>, ()>) -> Self::Future {
+        unreachable!()
+    }
+}
+
+/// A data provider that always has a diff to offer (with no diffs the
+/// middleware falls back to AXFR before it ever compares serials).
+#[derive(Clone)]
+struct DiffProvider {
+    zone: Zone,
+    diffs: Vec<Arc<InMemoryZoneDiff>>,
+}
+
+impl XfrDataProvider<()> for DiffProvider {
+    type Diff = Arc<InMemoryZoneDiff>;
+    fn request<Octs>(
+        &self,
+        _req: &Request<Octs, ()>,
+        _diff_from: Option<Serial>,
+    ) -> Pin<
+        Box<
+            dyn Future<Output = Result<XfrData<Self::Diff>, XfrDataProviderError>>
+                + Sync
+                + Send
+                + '_,
+        >,
+    >
+    where
+        Octs: octseq::Octets + Send + Sync,
+    {
+        Box::pin(ready(Ok(XfrData::new(self.zone.clone(), self.diffs.clone(), false))))
+    }
+}
+
+fn soa_diff(start: u32, end: u32) -> Option<InMemoryZoneDiff> {
+    let apex = Name::<Bytes>::from_str("example.").unwrap();
+    let mut b = InMemoryZoneDiffBuilder::new();
+    b.remove(apex.clone(), Rtype::SOA, soa_rrset(start));
+    b.add(apex, Rtype::SOA, soa_rrset(end));
+    b.build().ok()
+}
+
+/// An IXFR request from a client holding serial `client` is put to the real
+/// `XfrMiddlewareSvc` serving a zone whose SOA serial is `zone_serial` and
+/// for which diffs are available.  RFC 1995 section 2: a client with the same
+/// or a newer version gets a single SOA, an older client gets a transfer.
+/// Returns "single" | "transfer" | a description of anything else.
+pub fn ixfr_decision(rt: &tokio::runtime::Runtime, client: u32, zone_serial: u32) -> String {
+    let apex = Name::<Bytes>::from_str("example.").unwrap();
+    let mut zb = ZoneBuilder::new(apex.clone(), Class::IN);
+    if zb.insert_rrset(&apex, soa_rrset(zone_serial)).is_err() {
+        return "harness: out of zone".into();
+    }
+    let zone = zb.build();
+    // the diff client -> zone where the diff builder accepts it, otherwise
+    // (client not older) the always valid diff zone-1 -> zone
+    let diff = match soa_diff(client, zone_serial)
+        .or_else(|| soa_diff(zone_serial.wrapping_sub(1), zone_serial))
+    {
+        Some(d) => d,
+        None => return "harness: no diff".into(),
+    };
+    let provider = DiffProvider { zone, diffs: vec![Arc::new(diff)] };
+
+    let mut b = MessageBuilder::new_vec();
+    b.header_mut().set_id(0x1234);
+    let mut q = b.question();
+    q.push((apex.clone(), Rtype::IXFR)).unwrap();
+    let mut a = q.authority();
+    let client_soa = match soa_rrset(client).data().first() {
+        Some(ZoneRecordData::Soa(soa)) => soa.clone(),
+        _ => return "harness: no soa".into(),
+    };
+    a.push((apex, Class::IN, Ttl::from_secs(3600), client_soa)).unwrap();
+    let req = Request::new(
+        "127.0.0.1:12345".parse().unwrap(),
+        tokio::time::Instant::now(),
+        a.into_message(),
+        TransportSpecificContext::NonUdp(NonUdpTransportContext::new(None)),
+        (),
+    );
+
+    let msgs: Result<Vec<Message<Bytes>>, String> = rt.block_on(async {
+        let res = XfrMiddlewareSvc::<Vec<u8>, NoNextSvc, (), DiffProvider>::preprocess(
+            Arc::new(Semaphore::new(1)),
+            Arc::new(Semaphore::new(1)),
+            &req,
+            provider,
+        )
+        .await;
+        let mut stream = match res {
+            Ok(ControlFlow::Break(s)) => s,
+            Ok(ControlFlow::Continue(())) => return Err("not handled".to_string()),
+            Err(rc) => return Err(format!("rcode {rc}")),
+        };
+        let mut out = vec![];
+        while let Some(item) = stream.next().await {
+            let item: Result<CallResult<Vec<u8>>, ServiceError> = item;
+            let cr = item.map_err(|e| format!("service error {e}"))?;
+            let end = matches!(cr.feedback(), Some(ServiceFeedback::EndTransaction));
+            if let Some(b) = cr.into_inner().0 {
+                let octets: Vec<u8> = b.as_message().as_slice().to_vec();
+                out.push(
+                    Message::from_octets(Bytes::from(octets))
+                        .map_err(|_| "short message".to_string())?,
+                );
+            }
+            if end {
+                break;
+            }
+        }
+        Ok(out)
+    });
+    let msgs = match msgs {
+        Ok(m) => m,
+        Err(e) => return format!("error: {e}"),
+    };
+    let mut serials: Vec<u32> = vec![];
+    let mut n_rr = 0usize;
+    for m in &msgs {
+        if m.header().rcode() != domain::base::iana::Rcode::NOERROR {
+            return format!("error: rcode {}", m.header().rcode());
+        }
+        let Ok(sec) = m.answer() else { return "error: unparsable answer".into() };
+        for r in sec.limit_to::<ZoneRecordData<Bytes, domain::base::ParsedName<Bytes>>>() {
+            match r {
+                Ok(r) => {
+                    n_rr += 1;
+                    if let ZoneRecordData::Soa(soa) = r.data() {
+                        serials.push(soa.serial().into_int());
+                    }
+                }
+                Err(_) => return "error: unparsable record".into(),
+            }
+        }
+    }
+    if serials.first() != Some(&zone_serial) {
+        return format!("error: first SOA {:?} is not the zone's {}", serials.first(), zone_serial);
+    }
+    if n_rr == 1 {
+        "single".into()
+    } else {
+        "transfer".into()
+    }
+}
